@@ -106,14 +106,6 @@ Definition mismatch (c : case) : bool :=
 
 (* ------------------------------------------------------------------ the property on the observation *)
 
-(* accepted endpoint: one safe token, only bytes of the grammar, port (where the notation shows one) in range *)
-Definition endpoint_sound (port_required : bool) (s : str) : bool :=
-  safe_token s && forallb endpoint_char s &&
-  match port_text s with
-  | Some p => if is_nil p then negb port_required else signed_in 1 65535 p
-  | None => negb port_required
-  end.
-
 (* D23: an endpoint that is documented as valid and whose port numeral is 32768..65535 (given to one
    of the two endpoint validators directly, or as one of the endpoint settings of a command line) *)
 Definition high_port_endpoint (s : str) : bool :=
